@@ -176,6 +176,16 @@ impl Stats {
 
 static LAST_PANIC: Mutex<Option<String>> = Mutex::new(None);
 
+/// In trace mode (`VH_TRACE=<file>`, used when a worker died abnormally) every case is written out before it runs,
+/// so that the input that aborts the process can be recovered.
+pub fn trace_case(unit: &str, case: impl FnOnce() -> Value) {
+    static PATH: std::sync::OnceLock<Option<String>> = std::sync::OnceLock::new();
+    if let Some(p) = PATH.get_or_init(|| std::env::var("VH_TRACE").ok()) {
+        let body = serde_json::json!({"unit": unit, "case": case()});
+        let _ = std::fs::write(p, serde_json::to_vec(&body).unwrap_or_default());
+    }
+}
+
 /// Installs a quiet panic hook that remembers message and location of the last panic.
 pub fn install_panic_hook() {
     std::panic::set_hook(Box::new(|info| {
@@ -232,6 +242,7 @@ where
     let failed = std::cell::Cell::new(false);
     let stats_cell = std::cell::RefCell::new(stats);
     let res = runner.run(&strategy, |case| {
+        trace_case(unit, || serde_json::to_value(&case).unwrap_or(Value::Null));
         let out = run(&case);
         if !failed.get() {
             let s = serde_json::to_string(&case).unwrap_or_default();
